@@ -271,7 +271,7 @@ bool
 typehasint(struct type *t, unsigned long long i, bool sign)
 {
 	assert(t->prop & PROPINT);
-	if (t->kind == TYPEBOOL)
+	if (t->kind == TYPEBOOL || t->kind == TYPEENUM && t->base && t->base->kind == TYPEBOOL)
 		return i <= 1;
 	if (sign && i >= -1ull << 63)
 		return t->u.basic.issigned && i >= -1ull << (t->size << 3) - 1;
